@@ -457,6 +457,12 @@ def numeric_prelude():
     for t in FLOAT_TYPES:
         out.append(f'    pub const FLIM_{t.upper()}: {t} = 9.5;')
     out.append('}')
+    # user constants named like the limits of primitive types, reached through a path
+    out.append('pub mod month { pub const MIN: u8 = 1; pub const MAX: u8 = 12; }')
+    out.append('pub mod limits { pub const MIN: i32 = -40; pub const MAX: i32 = 100; }')
+    out.append('pub mod flimits { pub const MIN: f64 = -4.5; pub const MAX: f64 = 9.5; }')
+    out.append('pub mod lens { pub const MIN: usize = 2; pub const MAX: usize = 7; }')
+    out.append('pub struct Celsius; impl Celsius { pub const MIN: f64 = -273.15; pub const MAX: f64 = 1000.0; }')
     out.append('macro_rules! lim_m { () => { 6 } }')
     out.append('macro_rules! flim_m { () => { 6.5 } }')
     return '\n'.join(out) + '\n'
@@ -1086,6 +1092,17 @@ def build(tier='quick', seed=0):
         ('Box<str>', '', ['Debug', 'Clone', 'PartialEq', 'Eq', 'Hash', 'AsRef', 'Deref', 'Into', 'Display', 'Serialize', 'Deserialize'], '|s| !s.is_empty()', None),
         ("&'a str", "<'a>", ['Debug', 'Clone', 'Copy', 'PartialEq', 'Eq', 'PartialOrd', 'Ord', 'Hash', 'AsRef', 'Deref', 'Into', 'Display'], '|s| !s.is_empty()', None),
     ]
+    any_inners += [
+        # ... in a serde template: options, tuples, arrays, maps, unit
+        ('Option<String>', '', ['Debug', 'Clone', 'PartialEq', 'Eq', 'Hash', 'AsRef', 'Into', 'Serialize', 'Deserialize', 'Arbitrary'],
+         '|o| o.is_some()', '|o| o.map(|s| s.trim().to_string())'),
+        ('::core::option::Option<u32>', '', ['Debug', 'Clone', 'Copy', 'PartialEq', 'AsRef', 'Into', 'Serialize', 'Deserialize'], '|o| *o != Some(0)', None),
+        ('(i32, String)', '', ['Debug', 'Clone', 'PartialEq', 'AsRef', 'Into', 'Serialize', 'Deserialize'], '|t| t.0 >= 0', None),
+        ('[u8; 4]', '', ['Debug', 'Clone', 'Copy', 'PartialEq', 'Eq', 'Hash', 'AsRef', 'Deref', 'Into', 'IntoIterator', 'Serialize', 'Deserialize'], '|a| a[0] != 0', None),
+        ('std::collections::BTreeMap<String, i32>', '', ['Debug', 'Clone', 'PartialEq', 'AsRef', 'Deref', 'Into', 'IntoIterator', 'Serialize', 'Deserialize'],
+         '|m| m.len() < 4', None),
+        ('()', '', ['Debug', 'Clone', 'Copy', 'PartialEq', 'Into', 'Serialize', 'Deserialize'], None, None),
+    ]
     if thorough:
         any_inners += [
             ('Option<T>', '<T: Clone>', ['Debug', 'Clone', 'PartialEq', 'AsRef', 'Deref', 'Into'], '|o| o.is_some()', None),
@@ -1363,6 +1380,15 @@ def build(tier='quick', seed=0):
                   via_macro_ty=True))
     full.append(X(decl('float', 'f64', validators=[V('finite'), V('greater_or_equal', '0.0', 0.0, 'lit')], derives=['Debug', 'Clone', 'Copy', 'PartialEq', 'Eq', 'PartialOrd', 'Ord', 'TryFrom'],
                        tags=['via-macro']), via_macro_ty=True))
+    # bounds that are paths ending in MIN / MAX but are *not* the limits of the inner type
+    full.append(decl('int', 'u8', validators=[V('greater_or_equal', 'month::MIN', 1, 'expr'), V('less_or_equal', 'month::MAX', 12, 'expr')],
+                     derives=['Debug', 'TryFrom', 'FromStr', 'Arbitrary'], tags=['minmax-path']))
+    full.append(decl('int', 'i32', validators=[V('greater', 'limits::MIN', -40, 'expr'), V('less', 'crate::limits::MAX', 100, 'expr')],
+                     derives=['Debug', 'TryFrom', 'Arbitrary', 'Display'], tags=['minmax-path']))
+    full.append(decl('float', 'f64', validators=[V('greater_or_equal', 'Celsius::MIN', -273.15, 'expr'), V('less_or_equal', 'flimits::MAX', 9.5, 'expr')],
+                     derives=['Debug', 'TryFrom', 'Arbitrary'], tags=['minmax-path']))
+    full.append(decl('string', 'String', validators=[V('len_char_min', 'lens::MIN', 2, 'expr'), V('len_char_max', 'lens::MAX', 7, 'expr')],
+                     derives=['Debug', 'TryFrom', 'Arbitrary'], tags=['minmax-path']))
     # unusual places: a function body, a nested module with restricted visibility
     for fam, t, vs, sn in (('int', 'i32', [V('greater', '0', 0, 'lit'), V('less', 'K_I32 * 2', K * 2, 'expr')], []),
                            ('string', 'String', [V('not_empty'), V('len_char_max', 'MAXLEN', MAXLEN, 'expr')], [S('trim')]),
